@@ -6,6 +6,7 @@ import (
 	"os/exec"
 	"path/filepath"
 	"runtime"
+	"strings"
 	"time"
 
 	"verifharness/internal/fw"
@@ -35,7 +36,7 @@ func binSample(c *fw.Ctx, res *fw.Result, idx int, tag string, files map[string]
 	outPath := filepath.Join(d, "result.out")
 	if outFlag != "" {
 		argv = append(argv, outFlag, outPath)
-		if idx%2 == 0 {
+		if fw.Mix(uint64(idx)+1234)%2 == 0 {
 			// the output file already exists and holds a longer, unrelated earlier result
 			os.WriteFile(outPath, []byte(staleContent(len(want)+500)), 0644)
 			res.Count("binary_runs_over_existing_output_file", 1)
@@ -113,4 +114,15 @@ func boolFlag(a []string, name string, v bool, explicit bool) []string {
 		return append(a, "--"+name+"=false")
 	}
 	return a
+}
+
+// spellMeasure spells a distance measure the way users do: the command accepts any letter case.
+func spellMeasure(m string, idx int) string {
+	switch fw.Mix(uint64(idx)+31) % 4 {
+	case 1:
+		return strings.ToUpper(m)
+	case 2:
+		return strings.ToUpper(m[:1]) + m[1:]
+	}
+	return m
 }
